@@ -113,3 +113,15 @@ async fn new_session_sync_then_invalidate_leaks_record() {
     println!("new+insert+sync+invalidate finalize: {:?}", r.as_ref().map(|c| c.is_some()).map_err(|e| format!("{e:?}")));
     // is the record gone? we cannot know the id from outside; count via delete_expired is useless. Use Debug of nothing: skip.
 }
+
+#[tokio::test]
+async fn new_session_insert_sync_finalize() {
+    let store = SessionStore::new(InMemorySessionStore::new());
+    let config = SessionConfig::default();
+    let mut s1 = Session::new(&store, &config, None);
+    s1.insert("a", 1).await.unwrap();
+    s1.sync().await.expect("first sync");
+    let r = s1.finalize().await;
+    println!("new session insert+sync+finalize: {:?}", r.as_ref().map(|c| c.is_some()).map_err(|e| format!("{e:?}")));
+    assert!(r.is_ok(), "WITNESS-E");
+}
